@@ -8,8 +8,9 @@
             | 'K' mask iface     MIR_link (iface: i = interpreter, g = generator, l = lazy generator,
                                  q = interpreter, but no accessor is executed after this link);
                                  the import resolver resolves name n iff bit n of mask is set
-   decl    := 'i'n | 'e'n | 'f'n | 'F'n | 'B'n | 'D'n | 'P'n   import / export / forward / func / big func /
-                                                        data / proto
+   decl    := 'i'n | 'e'n | 'f'n | 'F'n | 'B'n | 'D'n | 'S'n | 'P'n   import / export / forward / func /
+                                                        big func / data / data section of several items
+                                                        (named head + anonymous followers) / proto
                                                         of name "n<n>"
 
    The k-th 'L' op creates module k.  Its function n returns 1000+16*k+n, its data n holds
@@ -144,6 +145,13 @@ static void build_module (MIR_context_t ctx, int k, char *decls) {
       MIR_new_data (ctx, name, MIR_T_I64, 1, &v);
       break;
     }
+    case 'S': { /* what c2mir emits for an initialised aggregate: a named head and anonymous items */
+      int64_t v = 5000 + 16 * k + n, w[2] = {7, 8};
+      MIR_new_data (ctx, name, MIR_T_I64, 1, &v);
+      MIR_new_data (ctx, NULL, MIR_T_I64, 2, w);
+      MIR_new_bss (ctx, NULL, 3);
+      break;
+    }
     case 'P': MIR_new_proto_arr (ctx, name, 1, &i64, 0, NULL); break;
     default: break;
     }
@@ -194,6 +202,12 @@ static void build_module (MIR_context_t ctx, int k, char *decls) {
 }
 
 /* what an address is: 0 unknown, 1 null, 2 function definition, 3 data definition, 4 external */
+/* the anonymous followers of an `S` declaration are not declarations: they have no index */
+static int follower_p (MIR_item_t it) {
+  return (it->item_type == MIR_data_item && it->u.data->name == NULL)
+         || (it->item_type == MIR_bss_item && it->u.bss->name == NULL);
+}
+
 static int ident_mod; /* module of the definition found by identify */
 static int identify (void *addr, char *out) {
   ident_mod = -1;
@@ -207,14 +221,17 @@ static int identify (void *addr, char *out) {
       return 4;
     }
   for (int k = 0; k < nmods; k++) {
-    int idx = 0;
-    for (MIR_item_t it = DLIST_HEAD (MIR_item_t, mods[k].m->items); it != NULL && idx < mods[k].nspec;
-         it = DLIST_NEXT (MIR_item_t, it), idx++)
+    int idx = 0, pos = 0;
+    for (MIR_item_t it = DLIST_HEAD (MIR_item_t, mods[k].m->items); it != NULL && pos < mods[k].nspec;
+         it = DLIST_NEXT (MIR_item_t, it), pos++) {
+      if (follower_p (it)) continue;
       if ((it->item_type == MIR_func_item || it->item_type == MIR_data_item) && it->addr == addr) {
         sprintf (out, "M%d.%d", k, idx);
         ident_mod = k;
         return it->item_type == MIR_func_item ? 2 : 3;
       }
+      idx++;
+    }
   }
   strcpy (out, "?");
   return 0;
@@ -245,12 +262,12 @@ static void print_bindings (int want_state) {
   char tag[64];
   for (int k = 0; k < nmods; k++) {
     struct mod *md = &mods[k];
-    int idx = 0;
+    int pos = 0;
     if (md->state != want_state) continue;
     printf (" %c%d{", want_state == 2 ? 'm' : 'p', k);
     int first = 1;
-    for (MIR_item_t it = DLIST_HEAD (MIR_item_t, md->m->items); it != NULL && idx < md->nspec;
-         it = DLIST_NEXT (MIR_item_t, it), idx++) {
+    for (MIR_item_t it = DLIST_HEAD (MIR_item_t, md->m->items); it != NULL && pos < md->nspec;
+         it = DLIST_NEXT (MIR_item_t, it), pos++) {
       char kc;
       const char *name;
       if (it->item_type == MIR_import_item) {
